@@ -423,6 +423,11 @@ def admit_corr(env: Env, out: Outcome, n: int) -> None:
             if w in used or w < 0 or w >= nw:
                 out.violations.append(Violation("C01/allocator_picks_taken_slot", f"_add_or_enqueue_event started worker id {w} with num_workers={nw} and in-progress worker ids {used}",
                                                 {"admit": {"nw": nw, "used": used}}))
+    # malformed lines of the new ops answer `bad-op` (and leave the driver state alone)
+    for bad in ("addenq", "addenq 2 3 0 1", "addenq 2 1 0 7", "addenq x 0", "rmicro 5", "rmicro 5 P 0 HQ", "rinitmicro x _ _", "rinitmicro 0 _"):
+        ops.append(bad)
+        exp.append("bad-op")
+        out.count("admit:malformed_line")
     try:
         mo = Driver("slots").run(ops)
     except Exception as ex:
